@@ -67,8 +67,7 @@ Proof.
   destruct (one_pass (offered u r) r ap budget) as [d'|] eqn:E1.
   - injection H as <-. destruct (one_pass_sound _ _ _ _ _ E1) as [c [Hin [Hd He]]].
     exists c, ap; auto.
-  - destruct ((forallb (fun c => is_prerelease (cand_version c)) (offered u r) || req_has_prerelease r) && negb ap);
-      [|discriminate].
+  - match type of H with (if ?b then _ else _) = _ => destruct b; [|discriminate] end.
     destruct (one_pass_sound _ _ _ _ _ H) as [c [Hin [Hd He]]]. exists c, true; auto.
 Qed.
 
@@ -89,7 +88,8 @@ Proof.
   - injection H as <-. destruct (one_pass_sound _ _ _ _ _ E1) as [c' [_ [Hd He]]]. exists c', ap; auto.
   - destruct (forallb (fun c => is_prerelease (cand_version c)) (offered u r) || req_has_prerelease r) eqn:E2;
       cbn [andb] in H; [|discriminate].
-    destruct (negb ap); [|discriminate].
+    destruct (negb ap); [|discriminate]. cbn [andb] in H.
+    match type of H with (if ?b then _ else _) = _ => destruct b; [|discriminate] end.
     destruct (one_pass_sound _ _ _ _ _ H) as [c' [_ [Hd He]]]. exists c', true; auto.
 Qed.
 
